@@ -228,4 +228,56 @@ theorem evalConst_embed (e : SExpr) (v : Int) (hwf : e.WF) (hf : AllFoldable e) 
       · exact enhance_inRange ty f va vb v hv
     · simp at h
 
+/-! ### the pass does not raise on well-typed constant trees -/
+
+theorem apply_err (f : PyOp) (a b : Int) (x : Err) (h : f.apply a b = .error x) :
+    x = .ZeroDivisionError ∨ x = .ValueError := by
+  cases f <;> simp only [PyOp.apply, pyMod, irem] at h
+  case add | sub | mul => simp at h
+  case mod => split at h <;> simp at h; exact Or.inl h.symm
+  case irem =>
+    split at h
+    · rename_i e he; split at he <;> simp at he; simp at h; rw [← h, ← he]; exact Or.inl rfl
+    · simp at h
+  case lshift => split at h <;> simp at h; exact Or.inr h.symm
+  case rshift => split at h <;> simp at h; exact Or.inr h.symm
+
+/-- typing alone (no range, no definedness): `eval_const` on a well-typed tree over the folder's
+    operators either returns a constant of the tree's type or raises one of the two exceptions of
+    an undefined operation — never an assertion failure or `NotImplementedError`. -/
+theorem evalConst_embed_total (e : SExpr) (hwf : e.WF) (hf : AllFoldable e) :
+    (∃ v, evalConst (embed e) = .ok (tyOf e.ty, v)) ∨ evalConst (embed e) = .error .ZeroDivisionError
+      ∨ evalConst (embed e) = .error .ValueError := by
+  induction e with
+  | const ty c => exact Or.inl ⟨c, rfl⟩
+  | cast ty src ih =>
+    rcases ih hwf hf with ⟨v, hv⟩ | h | h
+    · exact Or.inl ⟨Model.ConstFold.cast v (tyOf ty), by simp [embed, evalConst, hv, SExpr.ty]⟩
+    · exact Or.inr (Or.inl (by simp [embed, evalConst, h]))
+    · exact Or.inr (Or.inr (by simp [embed, evalConst, h]))
+  | binop ty op a b iha ihb =>
+    obtain ⟨hta, htb, hwa, hwb⟩ := hwf
+    obtain ⟨hop, hfa, hfb⟩ := hf
+    obtain ⟨f, hfl⟩ := Option.isSome_iff_exists.mp hop
+    rcases iha hwa hfa with ⟨va, hva⟩ | h | h
+    · rcases ihb hwb hfb with ⟨vb, hvb⟩ | h' | h'
+      · rw [hta] at hva; rw [htb] at hvb
+        cases hap : f.apply va vb with
+        | ok r => exact Or.inl ⟨correct r (tyOf ty), by simp [embed, evalConst, hva, hvb, hfl, enhance, hap, SExpr.ty]⟩
+        | error x =>
+          rcases apply_err f va vb x hap with rfl | rfl
+          · exact Or.inr (Or.inl (by simp [embed, evalConst, hva, hvb, hfl, enhance, hap]))
+          · exact Or.inr (Or.inr (by simp [embed, evalConst, hva, hvb, hfl, enhance, hap]))
+      · exact Or.inr (Or.inl (by simp [embed, evalConst, hva, h']))
+      · exact Or.inr (Or.inr (by simp [embed, evalConst, hva, h']))
+    · exact Or.inr (Or.inl (by simp [embed, evalConst, h]))
+    · exact Or.inr (Or.inr (by simp [embed, evalConst, h]))
+
+theorem tryEvalConst_embed_total (e : SExpr) (hwf : e.WF) (hf : AllFoldable e) :
+    (∃ v, tryEvalConst (embed e) = .ok (some (tyOf e.ty, v))) ∨ tryEvalConst (embed e) = .ok none := by
+  rcases evalConst_embed_total e hwf hf with ⟨v, hv⟩ | h | h
+  · exact Or.inl ⟨v, tryEvalConst_of_ok _ _ hv⟩
+  · exact Or.inr (by simp [tryEvalConst, h])
+  · exact Or.inr (by simp [tryEvalConst, h])
+
 end Proofs.ConstFold
